@@ -148,9 +148,14 @@ func c03Whitespace(w *World, r *Report) {
 		mfd, _ := w.FuncDecl(m)
 		ok := false
 		// a loop that reads a rune each time round and goes round exactly for the whitespace characters
-		for _, ll := range lexLoops(w, w.SSAFunc(m)) {
-			if ll.consumes && ll.roundsExactlyFor(wsSet) {
-				ok = true
+		for _, g := range bodiesDeep(w.SSAFunc(m), 1) { // the skipping loop may live in a helper of its own
+			if g.Pkg != w.SSAFunc(m).Pkg {
+				continue
+			}
+			for _, ll := range lexLoops(w, g) {
+				if ll.consumes && ll.roundsExactlyFor(wsSet) {
+					ok = true
+				}
 			}
 		}
 		used := len(allCallsTo(lp, lfd.Body, m)) > 0
